@@ -58,7 +58,7 @@ class C01(Property):
     technique = "Lean 4 proof (dual numbers, big-operator algebra) + exact-rational differential oracle"
 
     def cases(self, rng, tier):
-        n = 60 if tier == 'quick' else 1500
+        n = 40 if tier == 'quick' else 1500
         for _ in range(n):
             yield {'gen_seed': rng.randrange(10 ** 9),
                    'opts': {'safe_indices': True, 'scaling': rng.random() < 0.3},
